@@ -23,36 +23,37 @@ const (
 )
 
 type tableCfg struct {
-	seats       int
-	rule        string
-	mode        string
-	minPlayers  int
-	ante        int64
-	dealerB     int64
-	sb          int64
-	bb          int64
-	actionTime  int
-	interval    int
-	nPlayers    int
-	horizonMs   int64
-	faultEndMs  int64
-	admin       bool // admin interventions enabled
-	pauseClose  bool // external pause/close/release requests enabled
-	leaves      bool
-	topups      bool
-	lateJoin    bool
-	blindOps    bool
-	rogue       bool
-	backendF    bool
-	judge       bool // wrap client calls in judged (atomic before/after) sections
-	withhold    int  // per-mille probability that a client withholds an answer during the fault window
-	netFaults   bool
-	allinBias   int
-	preJoin     bool // players given in CreateTable setting
-	midLeave    bool // allow a dealt-in player to leave while the hand runs (known finding territory)
-	slowSub     bool
-	atomicCalls bool // harness calls run as atomic (judgeable) sections; false = they interleave with the engine at statement level
-	stampede    bool // C16: every participant submits game actions at every turn, concurrently and in duplicate
+	seats        int
+	rule         string
+	mode         string
+	minPlayers   int
+	ante         int64
+	dealerB      int64
+	sb           int64
+	bb           int64
+	actionTime   int
+	interval     int
+	nPlayers     int
+	horizonMs    int64
+	faultEndMs   int64
+	admin        bool // admin interventions enabled
+	pauseClose   bool // external pause/close/release requests enabled
+	leaves       bool
+	topups       bool
+	lateJoin     bool
+	blindOps     bool
+	rogue        bool
+	backendF     bool
+	judge        bool // wrap client calls in judged (atomic before/after) sections
+	withhold     int  // per-mille probability that a client withholds an answer during the fault window
+	netFaults    bool
+	allinBias    int
+	preJoin      bool // players given in CreateTable setting
+	midLeave     bool // allow a dealt-in player to leave while the hand runs (known finding territory)
+	slowSub      bool
+	atomicCalls  bool // harness calls run as atomic (judgeable) sections; false = they interleave with the engine at statement level
+	slowSubOneIn int
+	stampede     bool // C16: every participant submits game actions at every turn, concurrently and in duplicate
 }
 
 type delivery struct {
@@ -91,6 +92,8 @@ type tableWorld struct {
 	anyInFlight                          int
 	unit                                 int64
 	alignWake                            chan struct{}
+	rogueWake                            chan struct{}
+	lastRogueKey                         int64
 }
 
 type blindRec struct {
@@ -178,6 +181,7 @@ func (w *tableWorld) drawCfg() {
 	g.preJoin = c.CfgBool("prejoin", 1, 4)
 	g.midLeave = g.leaves && c.CfgBool("mid_leave", 1, 10)
 	g.slowSub = c.CfgBool("slow_subscriber", 1, 10)
+	g.slowSubOneIn = 40
 	// focus-specific bias
 	switch {
 	case f("C07"):
@@ -186,6 +190,7 @@ func (w *tableWorld) drawCfg() {
 		}
 		g.admin = true
 		g.slowSub = c.CfgBool("c07_slow_subscriber", 1, 2)
+		g.slowSubOneIn = 6
 	case f("C08", "C11"):
 		g.pauseClose = false
 		if f("C11") {
@@ -227,6 +232,7 @@ func (w *tableWorld) Run(c *Ctx) {
 	w.drawCfg()
 	g := w.cfg
 	w.alignWake = make(chan struct{}, 1)
+	w.rogueWake = make(chan struct{}, 1)
 	w.adminSt = c.St.Get("admin")
 	w.netSt = c.St.Get("net")
 	w.clients = map[string]*tclient{}
@@ -430,7 +436,14 @@ func (w *tableWorld) hookCallbacks() {
 				default:
 				}
 			}
-			if w.cfg.slowSub && w.inFaultWindow() && w.netSt.Chance(1, 40) {
+			if gs := snap.State.GameState; gs != nil && gs.UpdatedAt != w.lastRogueKey {
+				w.lastRogueKey = gs.UpdatedAt
+				select {
+				case w.rogueWake <- struct{}{}:
+				default:
+				}
+			}
+			if w.cfg.slowSub && w.inFaultWindow() && w.netSt.Chance(1, w.cfg.slowSubOneIn) {
 				c.Fault("F8_slow_subscriber")
 				slow = int64(1 + w.netSt.Draw(3000))
 				w.mon.slowness(slow)
@@ -1187,7 +1200,12 @@ func (w *tableWorld) rogueTask() {
 	st := c.St.Get("client.rogue")
 	acts := []string{"ready", "pay", "pass", "fold", "check", "call", "allin", "bet", "raise"}
 	for c.NowMs() < w.cfg.faultEndMs && !c.Stopped() {
-		simrt.Sleep(0, time.Duration([]int{20, 100, 400, 1000, 2500}[st.Draw(5)])*time.Millisecond)
+		// at drawn times, and right when the hand publishes a new state (so that a stray action can
+		// overlap the engine's own next step)
+		select {
+		case <-w.rogueWake:
+		case <-time.After(time.Duration([]int{20, 100, 400, 1000, 2500}[st.Draw(5)]) * time.Millisecond):
+		}
 		if c.NowMs() >= w.cfg.faultEndMs || c.Stopped() {
 			break
 		}
@@ -1291,6 +1309,11 @@ func (w *tableWorld) alignedTask() {
 			}
 		case 4:
 			if g.pauseClose && st.Chance(1, 2) {
+				// shortly after the instant at which the engine decides / the gate fires: a locked call
+				// with a slow subscriber may be holding the engine lock right now
+				if d := []int{0, 0, 100, 500, 1200, 2500}[st.Draw(6)]; d > 0 {
+					simrt.Sleep(0, time.Duration(d)*time.Millisecond)
+				}
 				c.Fault("F5_close")
 				w.mon.adminEvent("close")
 				w.eng.CloseTable()
